@@ -14,13 +14,13 @@ def merge (d : Char) : List String → List String → List String
     if Str.hasSuffix last "\\" then merge d ((Str.dropRight last 1 ++ String.singleton d ++ p) :: acc) r
     else merge d (p :: last :: acc) r
 
+/-- "allow path to start with forward slash": an empty first piece is dropped when more pieces follow -/
+def dropLead : List String → List String
+  | "" :: a :: b => a :: b
+  | l => l
+
 /-- `PathSplitter(path, d)` -/
-def split (d : Char) (path : String) : List String :=
-  let ps := Str.splitChar d path
-  let ps := match ps with
-    | "" :: r@(_ :: _) => r
-    | l => l
-  merge d [] ps
+def split (d : Char) (path : String) : List String := merge d [] (dropLead (Str.splitChar d path))
 
 def joinD (d : Char) : List String → String
   | [] => ""
